@@ -505,6 +505,8 @@ func (e *Entity) Commit(repo repository.ClockedRepo) error {
 
 		commitHash, err := opp.Write(e.Definition, repo, parentCommit...)
 		if err != nil {
+			// keep the operations staged: the entity stays usable and the commit can be retried
+			e.staging = append(toCommit, e.staging...)
 			return err
 		}
 
